@@ -31,9 +31,17 @@ position (so L3 compares node identity across iterator programs too) and proved 
 (`iter_add_links`, `diter_add_links`, `iter_remove_links`); the zip variants are two such steps on two lists (model and L3
 only, no separate theorem).
 
-Not at pointer level (they keep their sequence-level models and theorems): `filter_mut`, the two sorts and the derived-list
-builders; after one of these the driver rebuilds the pointer-level state from the sequence-level one and both sides
-renumber their nodes (links are still compared, node identity across that operation is not). -/
+**Scope of "always".**  `history_refines`/`history_refines_ideal`/`mirror` along histories quantify over `List POp`: the 16
+operations above (insertions, bulk copies, splices, removals, `replace_at`, `reverse`, `filter_mut`, exchange of roles), any
+refusal schedule, any triples.  The iterator mutators have the one-call theorems below (`iter_add_links`, `diter_add_links`,
+`iter_remove_links`, and `iter_mutators_mirror`: the result is well-formed, hence mirrored), from any represented state —
+which covers every state reachable by `POp` histories and iterator calls in any interleaving, but they are not constructors
+of `POp`.  **Not covered at link level**: `cc_list_sort_in_place` (`split`/`merge` re-link already linked nodes through
+`link_behind`; only the sequence-level `C18List.sort_in_place_*` theorems and the harness walkers speak about its links),
+`cc_list_sort` (rewrites `data` only — trivially link-preserving, not stated), the zip mutators as a pair (two single
+steps; model and L3 only) and the derived-list builders (fresh lists built by `add`).  After one of the uncovered operations the
+driver rebuilds the pointer-level state from the sequence-level one and both sides renumber their nodes (links are still
+compared after it, node identity across it is not). -/
 namespace CC.Properties.C04PList
 open CC CC.Chain CC.PList
 open CC.Spec
@@ -49,8 +57,8 @@ theorem traversals (h : Heap) (l : Hdr) (cs : List Cell) (r : PList.Repr h l cs)
 /-- **one step**: every pointer-level operation keeps both lists well-formed and disjoint, and yields exactly the output,
 the ledger and the contents of the sequence-level step (`Model/LinkedList.lean`) on the canonical chains -/
 theorem step_refines (P : Params) (p : PS) (c1 c2 : List Cell) (op : POp) (m : Mem) (I : Inv2 p c1 c2) :
-    ∃ c1' c2', Inv2 (pstep p op m).2.1 c1' c2' ∧
-      DList.step P (absPair p c1 c2) op.toOp m = ((pstep p op m).1, absPair (pstep p op m).2.1 c1' c2', (pstep p op m).2.2) :=
+    ∃ c1' c2', Inv2 (pstep P p op m).2.1 c1' c2' ∧
+      DList.step P (absPair p c1 c2) op.toOp m = ((pstep P p op m).1, absPair (pstep P p op m).2.1 c1' c2', (pstep P p op m).2.2) :=
   pstep_refines P p c1 c2 op m I
 
 /-- two freshly constructed (empty) lists on the triples `t1`, `t2` -/
@@ -65,18 +73,18 @@ theorem fresh_inv (t1 t2 : Triple) : Inv2 (fresh t1 t2) [] [] := by
 lists end well-formed; their `next`-contents are the contents of the sequence-level final states; and the `prev`-contents
 are the exact mirrors -/
 theorem history_refines (P : Params) (t1 t2 : Triple) (ops : List POp) (m : Mem) :
-    (prun (fresh t1 t2) ops m).1 = (DList.run P (ofList t1 [], ofList t2 []) (ops.map POp.toOp) m).1 ∧
-    (prun (fresh t1 t2) ops m).2.2 = (DList.run P (ofList t1 [], ofList t2 []) (ops.map POp.toOp) m).2.2 ∧
-    WF (prun (fresh t1 t2) ops m).2.1.st.heap (prun (fresh t1 t2) ops m).2.1.l1 ∧
-    WF (prun (fresh t1 t2) ops m).2.1.st.heap (prun (fresh t1 t2) ops m).2.1.l2 ∧
-    fwd (prun (fresh t1 t2) ops m).2.1.st.heap (prun (fresh t1 t2) ops m).2.1.l1 =
+    (prun P (fresh t1 t2) ops m).1 = (DList.run P (ofList t1 [], ofList t2 []) (ops.map POp.toOp) m).1 ∧
+    (prun P (fresh t1 t2) ops m).2.2 = (DList.run P (ofList t1 [], ofList t2 []) (ops.map POp.toOp) m).2.2 ∧
+    WF (prun P (fresh t1 t2) ops m).2.1.st.heap (prun P (fresh t1 t2) ops m).2.1.l1 ∧
+    WF (prun P (fresh t1 t2) ops m).2.1.st.heap (prun P (fresh t1 t2) ops m).2.1.l2 ∧
+    fwd (prun P (fresh t1 t2) ops m).2.1.st.heap (prun P (fresh t1 t2) ops m).2.1.l1 =
       (DList.run P (ofList t1 [], ofList t2 []) (ops.map POp.toOp) m).2.1.1.abs ∧
-    fwd (prun (fresh t1 t2) ops m).2.1.st.heap (prun (fresh t1 t2) ops m).2.1.l2 =
+    fwd (prun P (fresh t1 t2) ops m).2.1.st.heap (prun P (fresh t1 t2) ops m).2.1.l2 =
       (DList.run P (ofList t1 [], ofList t2 []) (ops.map POp.toOp) m).2.1.2.abs ∧
-    bwd (prun (fresh t1 t2) ops m).2.1.st.heap (prun (fresh t1 t2) ops m).2.1.l1 =
-      (fwd (prun (fresh t1 t2) ops m).2.1.st.heap (prun (fresh t1 t2) ops m).2.1.l1).reverse ∧
-    bwd (prun (fresh t1 t2) ops m).2.1.st.heap (prun (fresh t1 t2) ops m).2.1.l2 =
-      (fwd (prun (fresh t1 t2) ops m).2.1.st.heap (prun (fresh t1 t2) ops m).2.1.l2).reverse := by
+    bwd (prun P (fresh t1 t2) ops m).2.1.st.heap (prun P (fresh t1 t2) ops m).2.1.l1 =
+      (fwd (prun P (fresh t1 t2) ops m).2.1.st.heap (prun P (fresh t1 t2) ops m).2.1.l1).reverse ∧
+    bwd (prun P (fresh t1 t2) ops m).2.1.st.heap (prun P (fresh t1 t2) ops m).2.1.l2 =
+      (fwd (prun P (fresh t1 t2) ops m).2.1.st.heap (prun P (fresh t1 t2) ops m).2.1.l2).reverse := by
   obtain ⟨c1, c2, I, e⟩ := prun_refines P ops (fresh t1 t2) [] [] m (fresh_inv t1 t2)
   have e0 : absPair (fresh t1 t2) [] [] = (ofList t1 [], ofList t2 []) := rfl
   rw [e0] at e
@@ -85,35 +93,31 @@ theorem history_refines (P : Params) (t1 t2 : Triple) (ops : List POp) (m : Mem)
   have w2 : WF _ _ := ⟨c2, I.rep.r2⟩
   exact ⟨rfl, rfl, w1, w2, by rw [I.rep.r1.fwd]; rfl, by rw [I.rep.r2.fwd]; rfl, PList.mirror w1, PList.mirror w2⟩
 
-/-- … and therefore (with `C04.dlist_history_refines_skipping`) the pointer-level run yields the outputs and contents of the
-ideal lists on which the refused operations did not happen; `splice` between lists on different triples is excluded
-there only because of the ledger, so it is excluded here as well -/
-theorem history_refines_ideal (P : Params) (t1 t2 : Triple) (ops : List POp) (m : Mem)
-    (hc : t1 = t2 ∨ ∀ op, op ∈ ops.map POp.toOp → ListHistory.isSplice op = false) :
-    (prun (fresh t1 t2) ops m).1 =
-      (LSeq.runSkipping true P ([], []) (ops.map POp.toOp) ((prun (fresh t1 t2) ops m).1.map (·.st))).1 ∧
-    (fwd (prun (fresh t1 t2) ops m).2.1.st.heap (prun (fresh t1 t2) ops m).2.1.l1,
-     fwd (prun (fresh t1 t2) ops m).2.1.st.heap (prun (fresh t1 t2) ops m).2.1.l2) =
-      (LSeq.runSkipping true P ([], []) (ops.map POp.toOp) ((prun (fresh t1 t2) ops m).1.map (·.st))).2 := by
+/-- … and therefore (with `C04.dlist_history_content`) the pointer-level run yields the outputs and contents of the ideal lists on
+which the refused operations did not happen — for **every** history over `POp`, `splice`/`splice_at` between lists on
+different allocator triples included (the content statement does not depend on the ledger) -/
+theorem history_refines_ideal (P : Params) (t1 t2 : Triple) (ops : List POp) (m : Mem) :
+    (prun P (fresh t1 t2) ops m).1 =
+      (LSeq.runSkipping true P ([], []) (ops.map POp.toOp) ((prun P (fresh t1 t2) ops m).1.map (·.st))).1 ∧
+    (fwd (prun P (fresh t1 t2) ops m).2.1.st.heap (prun P (fresh t1 t2) ops m).2.1.l1,
+     fwd (prun P (fresh t1 t2) ops m).2.1.st.heap (prun P (fresh t1 t2) ops m).2.1.l2) =
+      (LSeq.runSkipping true P ([], []) (ops.map POp.toOp) ((prun P (fresh t1 t2) ops m).1.map (·.st))).2 := by
   obtain ⟨h1, _, _, _, h5, h6, _, _⟩ := history_refines P t1 t2 ops m
-  have hp : ListHistory.PairOk (ofList t1 [], ofList t2 []) m :=
-    ⟨ofList_inv _, ofList_inv _, fun t => by
-      simp only [ListHistory.owned, ownedBy, ofList_abs, ofList_triple, List.length_nil]
-      by_cases x1 : t1 = t <;> by_cases x2 : t2 = t <;> simp [x1, x2]⟩
-  have := C04.dlist_history_refines_skipping P (ops.map POp.toOp) (ofList t1 [], ofList t2 []) m hp hc
+  have := C04.dlist_history_content P (ops.map POp.toOp) (ofList t1 [], ofList t2 []) m (ofList_inv _) (ofList_inv _)
   rw [h1, h5, h6]
   exact ⟨this.1, this.2.1⟩
 
 /-! ## iterator mutators on the node `iter->last` -/
 
-/-- `cc_list_iter_add` with `last` the node at position `k`: the list stays well-formed, the new node sits directly behind
-`last`, every other node keeps its identity and its place -/
+/-- `cc_list_iter_add` with `last` any node of the list (whatever `iter->index` says — in particular for the second and
+every further `add` behind the same yielded element, defect L6): the list stays well-formed (`tail` moves exactly when the new
+node has no successor), the new node sits directly behind `last`, every other node keeps its identity and its place -/
 theorem iter_add_links (s : St) (l : Hdr) (pre post : List Cell) (a : Cell) (x : Nat) (m : Mem)
     (r : PList.Repr s.heap l (pre ++ a :: post)) (hb : ∀ y, y ∈ idsOf (pre ++ a :: post) → y < s.fresh)
     (ha : (m.allocT l.triple).1 = true) :
-    PList.Repr (iterAddAt s l a.1 (pre.length + 1) x m).2.1.heap (iterAddAt s l a.1 (pre.length + 1) x m).2.2.1
+    PList.Repr (iterAddAt s l a.1 x m).2.1.heap (iterAddAt s l a.1 x m).2.2.1
       (pre ++ a :: (s.fresh, x) :: post) ∧
-    fwd (iterAddAt s l a.1 (pre.length + 1) x m).2.1.heap (iterAddAt s l a.1 (pre.length + 1) x m).2.2.1 =
+    fwd (iterAddAt s l a.1 x m).2.1.heap (iterAddAt s l a.1 x m).2.2.1 =
       (dataOf (pre ++ a :: post)).insertIdx (pre.length + 1) x := by
   obtain ⟨_, _, k⟩ := (iterAddAt_spec s l pre post a x m r hb).2 ha
   refine ⟨k.repr, ?_⟩
@@ -139,15 +143,38 @@ theorem iter_remove_links (s : St) (l : Hdr) (pre post : List Cell) (a : Cell) (
     PList.Repr (iterRemoveAt s l a.1 m).2.1.heap (iterRemoveAt s l a.1 m).2.2.1 (pre ++ post) :=
   ⟨(unlinkn_spec s l pre post a m r hb).1, (unlinkn_spec s l pre post a m r hb).2.2.repr⟩
 
-/-! ## Non-vacuity: a history with insertion in the middle, reversal, bulk copy and splice, read along both link directions -/
+/-- after any of the single-iterator mutators the list is well-formed again, so the content along `prev` from `tail` is the
+exact reverse of the content along `next` from `head` (`add` with the allocation granted; a refused `add` changes nothing) -/
+theorem iter_mutators_mirror (s : St) (l : Hdr) (pre post : List Cell) (a : Cell) (x : Nat) (m : Mem)
+    (r : PList.Repr s.heap l (pre ++ a :: post)) (hb : ∀ y, y ∈ idsOf (pre ++ a :: post) → y < s.fresh) :
+    ((m.allocT l.triple).1 = true →
+      bwd (iterAddAt s l a.1 x m).2.1.heap (iterAddAt s l a.1 x m).2.2.1 =
+        (fwd (iterAddAt s l a.1 x m).2.1.heap (iterAddAt s l a.1 x m).2.2.1).reverse ∧
+      bwd (diterAddAt s l a.1 pre.length x m).2.1.heap (diterAddAt s l a.1 pre.length x m).2.2.1 =
+        (fwd (diterAddAt s l a.1 pre.length x m).2.1.heap (diterAddAt s l a.1 pre.length x m).2.2.1).reverse) ∧
+    bwd (iterRemoveAt s l a.1 m).2.1.heap (iterRemoveAt s l a.1 m).2.2.1 =
+      (fwd (iterRemoveAt s l a.1 m).2.1.heap (iterRemoveAt s l a.1 m).2.2.1).reverse :=
+  ⟨fun ha => ⟨PList.mirror ⟨_, (iter_add_links s l pre post a x m r hb ha).1⟩,
+              PList.mirror ⟨_, diter_add_links s l pre post a x m r hb ha⟩⟩,
+   PList.mirror ⟨_, (iter_remove_links s l pre post a m r hb).2⟩⟩
+
+/-- `cc_list_filter_mut` at the level of nodes: exactly the nodes whose element fails the predicate leave the chain (one
+release each), the others keep identity and order; the result is well-formed -/
+theorem filter_mut_links (pr : Nat → Bool) (s : St) (l : Hdr) (cs : List Cell) (m : Mem) (r : PList.Repr s.heap l cs)
+    (hb : ∀ y, y ∈ idsOf cs → y < s.fresh) (hne : cs ≠ []) :
+    PList.Repr (filterMut pr s l m).2.1.heap (filterMut pr s l m).2.2.1 (cs.filter (fun c => pr c.2)) ∧
+    (filterMut pr s l m).2.2.2 = Mem.freeN l.triple (cs.length - (cs.filter (fun c => pr c.2)).length) m :=
+  ⟨((filterMut_spec pr s l cs m r hb).2 hne).2.2.repr, ((filterMut_spec pr s l cs m r hb).2 hne).2.1⟩
+
+/-! ## Non-vacuity: a history with insertion in the middle, `filter_mut`, reversal, bulk copy and splice, read along both link directions -/
 example :
-    (fwd (prun (fresh .conf .conf) [.addLast 1, .addLast 2, .addAt 3 1, .reverse, .swapRoles, .addLast 9, .swapRoles, .addAllAt 1,
+    (fwd (prun ⟨fun v => v % 2 == 0, LSeq.cmpNum⟩ (fresh .conf .conf) [.addLast 1, .addLast 2, .addAt 4 1, .addLast 6, .filterMut, .reverse, .swapRoles, .addLast 9, .swapRoles, .addAllAt 1,
         .spliceAt 2, .removeAt 1] {}).2.1.st.heap
-      (prun (fresh .conf .conf) [.addLast 1, .addLast 2, .addAt 3 1, .reverse, .swapRoles, .addLast 9, .swapRoles, .addAllAt 1,
+      (prun ⟨fun v => v % 2 == 0, LSeq.cmpNum⟩ (fresh .conf .conf) [.addLast 1, .addLast 2, .addAt 4 1, .addLast 6, .filterMut, .reverse, .swapRoles, .addLast 9, .swapRoles, .addAllAt 1,
         .spliceAt 2, .removeAt 1] {}).2.1.l1,
-     bwd (prun (fresh .conf .conf) [.addLast 1, .addLast 2, .addAt 3 1, .reverse, .swapRoles, .addLast 9, .swapRoles, .addAllAt 1,
+     bwd (prun ⟨fun v => v % 2 == 0, LSeq.cmpNum⟩ (fresh .conf .conf) [.addLast 1, .addLast 2, .addAt 4 1, .addLast 6, .filterMut, .reverse, .swapRoles, .addLast 9, .swapRoles, .addAllAt 1,
         .spliceAt 2, .removeAt 1] {}).2.1.st.heap
-      (prun (fresh .conf .conf) [.addLast 1, .addLast 2, .addAt 3 1, .reverse, .swapRoles, .addLast 9, .swapRoles, .addAllAt 1,
-        .spliceAt 2, .removeAt 1] {}).2.1.l1) = ([2, 9, 3, 1], [1, 3, 9, 2]) := by decide
+      (prun ⟨fun v => v % 2 == 0, LSeq.cmpNum⟩ (fresh .conf .conf) [.addLast 1, .addLast 2, .addAt 4 1, .addLast 6, .filterMut, .reverse, .swapRoles, .addLast 9, .swapRoles, .addAllAt 1,
+        .spliceAt 2, .removeAt 1] {}).2.1.l1) = ([6, 9, 2, 4], [4, 2, 9, 6]) := by decide
 
 end CC.Properties.C04PList
